@@ -252,6 +252,9 @@ def run_config(world: T.Dict[str, T.Any], urls: T.Dict[str, str]) -> T.Tuple[T.L
                     st.overrides.setdefault('foo', (True, 'internal', version))
             else:
                 st.sub_state = 'failed'
+                if acq.stage == 'patch-unpack':
+                    # how an unverifiable damaged archive is reported by subproject() is undetermined
+                    return ['UNDETERMINED'], st
     for call in world['calls']:
         r = lookup(call, world, st, urls)
         out.append(r)
